@@ -83,6 +83,7 @@ fn main() {
             "pipe" => satobj::run_pipe(&mut rng, count, thorough, &extra, &mut out),
             "cli" => cli::run(&mut rng, count, thorough, &extra, outp.as_deref(), &mut out),
             "dynamic" => dynamic::run(&mut rng, count, thorough, &extra, &mut out),
+            "pairs" => meta::run_pairs(&mut rng, count, thorough, &extra, &mut out),
             "static-multi" => statics::run(&mut rng, count, thorough, &statics::Cfg::from_extra(&extra, 8), &mut out),
             _ => {
                 eprintln!("unknown mode {}", mode);
